@@ -64,6 +64,23 @@ pub proof fn lemma_unique_replace<K, V>(c: Multiset<(K, V)>, e: (K, V), k: K)
     }
 }
 
+/// C11: a table made of clones of the main table's elements plus clones of the leftovers holds only clones of the contents
+pub proof fn lemma_clone_pieces<T: Clone>(fin: Multiset<T>, t0: Multiset<T>, main: Multiset<T>, lo: Multiset<T>)
+    requires elems_cloned(t0, main),
+             forall|x: T| #[trigger] fin.count(x) > 0 ==> t0.count(x) > 0 || exists|y: T| #[trigger] lo.count(y) > 0 && is_clone(y, x),
+    ensures elems_cloned(fin, main.add(lo)) //@ lemma_clone_pieces C11
+{
+    assert forall|x: T| #[trigger] fin.count(x) > 0 implies exists|y: T| #[trigger] main.add(lo).count(y) > 0 && is_clone(y, x) by {
+        if t0.count(x) > 0 {
+            let y = choose|y: T| #[trigger] main.count(y) > 0 && is_clone(y, x);
+            assert(main.add(lo).count(y) > 0);
+        } else {
+            let y = choose|y: T| #[trigger] lo.count(y) > 0 && is_clone(y, x);
+            assert(main.add(lo).count(y) > 0);
+        }
+    }
+}
+
 pub open spec fn st_cap(s: St) -> nat { s.n + s.g }
 pub open spec fn st_len(s: St) -> nat { s.n + s.l }
 
